@@ -371,9 +371,9 @@ mod engine {
         fn total_runs(&self, prop: &str, tier: &str) -> u64 {
             match (prop, tier) {
                 ("C05", "thorough") => 100_000,
-                ("C05", _) => 4_000,
+                ("C05", _) => 6_000,
                 (_, "thorough") => 30_000,
-                _ => 2_000,
+                _ => 3_000,
             }
         }
         fn run_seeded(&mut self, prop: &str, seed: u64, idx: u64, tier: &str, stats: &mut Stats, want_desc: bool) -> RunOut {
